@@ -107,7 +107,21 @@ def managed_program(rng, thorough):
             lines.append(f"goto {st}")
             lines.append(f"ex {hexb(rng.bytes(n))}")
             fields.remove((st, n))
-        lines.append("gl 9")
+        meta["session_fields"] = []
+        if rng.chance(1, 2):
+            lines.append("gl 9")                  # duplicate global: the error slot fires before anything is patched
+        else:
+            # the session writes an absolute reference that resolves, then a reference that does not: the first one is patched (and must be
+            # tracked from then on: it is in the buffer) before the session fails on the second
+            free = [i for i in range(0, off - 24) if not any(s - 24 <= i < s + m + 8 for (s, m) in fields + victims)]
+            if free:
+                at = rng.choice(free)
+                toff = rng.choice([0, 0, 5, -3])
+                lines += [f"goto {at}", f"ex {hexb(rng.bytes(8))}", f"rg 9 {toff} 8 8 x86.8.1", "ex xe900000000", "rf 7 0 4 0 x86.4.0"]
+                meta["session_fields"].append((at, toff))
+                fields.append((at, 8))
+            else:
+                lines.append("gl 9")
         meta["fail_at"] = len(lines)
         lines.append("}alter")
         lines.append("buf")
@@ -159,12 +173,18 @@ def evaluator(p, res, meta):
             # the failing session and what follows it: its replacement bytes are not touched by later moves (the tracked fields that
             # are left are compared with the model, which adjusts them)
             if idx == fail_at:
-                if not a.startswith("err Duplicate"):
-                    return ({"kind": "unexpected-answer", "op": ws[0]}, f"the session defines a global label twice but `{ws[0]}` returned `{a}`")
+                if not (a.startswith("err Duplicate") or a.startswith("err Unknown(local 7)")):
+                    return ({"kind": "unexpected-answer", "op": ws[0]}, f"the session has a defect (duplicate global / undefined forward label) but `{ws[0]}` returned `{a}`")
             elif ws[0] == "c" and a.startswith("err"):
                 return ({"kind": "unexpected-error", "op": ws[0]}, f"`{ws[0]}` after the failed session returned `{a}`")
             elif ws[0] == "buf" and a.startswith("x"):
                 got = bytes.fromhex(a[1:])
+                # absolute references the failed session wrote and patched: they denote the label (offset 0) at the buffer's CURRENT address
+                for (at, toff) in meta.get("session_fields", []):
+                    val = int.from_bytes(got[at:at + 8], "little")
+                    if addr is not None and val != (addr + toff) % (1 << 64):
+                        return ({"kind": "managed-field"}, f"the absolute reference the (failed) session wrote at offset {at} reads {val:#x}; the label is at {addr + toff:#x} "
+                                                            f"(buffer at {addr:#x}): the field is in the buffer but does not follow it")
                 if idx == fail_at + 1:
                     snap = got
                 else:
